@@ -145,7 +145,10 @@ fn step_label(s: &Step) -> String {
     match s {
         Step::Build(b) => format!(
             "build{}{}",
-            b.tracked.iter().map(|&t| if t { 't' } else { 'u' }).collect::<String>(),
+            b.tracked
+                .iter()
+                .map(|&t| if t { 't' } else { 'u' })
+                .collect::<String>(),
             if b.predecessors_in_commit { "" } else { "-nopic" }
         ),
         Step::Tx(a) => format!("tx:{}", acts(a)),
@@ -158,7 +161,10 @@ fn sig(ms: i64) -> Signature {
     Signature {
         name: "Test User".to_string(),
         email: "test.user@example.com".to_string(),
-        timestamp: Timestamp { timestamp: MillisSinceEpoch(ms), tz_offset: 0 },
+        timestamp: Timestamp {
+            timestamp: MillisSinceEpoch(ms),
+            tz_offset: 0,
+        },
     }
 }
 
@@ -255,7 +261,10 @@ struct Shared<'a> {
 
 /// Shapes observed on the unchanged tree and reported to the coordinator (an untracked commit
 /// that is reached twice is flushed twice); the vacuity gates stay armed when only these occur.
-const REPORTED_SHAPES: [&str; 2] = ["C46/walk/duplicate-untracked", "C46/walk-multi/duplicate-untracked"];
+const REPORTED_SHAPES: [&str; 2] = [
+    "C46/walk/duplicate-untracked",
+    "C46/walk-multi/duplicate-untracked",
+];
 
 fn violation(sh: &Shared, signature: &str, description: String, case: Value) {
     if !REPORTED_SHAPES.contains(&signature) {
@@ -313,7 +322,11 @@ impl World {
             repo: repo.clone(),
             table: vec![root],
             parents: vec![vec![]],
-            ghost: vec![Ghost { preds: vec![], op: None, by_jj: false }],
+            ghost: vec![Ghost {
+                preds: vec![],
+                op: None,
+                by_jj: false,
+            }],
             pending: vec![],
             ops: vec![],
             heads: vec![],
@@ -358,11 +371,18 @@ impl World {
         let ps: Vec<usize> = c
             .parent_ids()
             .iter()
-            .map(|p| self.slot_of(p).unwrap_or_else(|| machinery_failure("push(): parent not in table")))
+            .map(|p| {
+                self.slot_of(p)
+                    .unwrap_or_else(|| machinery_failure("push(): parent not in table"))
+            })
             .collect();
         self.table.push(c);
         self.parents.push(ps);
-        self.ghost.push(Ghost { preds, op: None, by_jj });
+        self.ghost.push(Ghost {
+            preds,
+            op: None,
+            by_jj,
+        });
         let s = self.table.len() - 1;
         if tracked {
             self.pending.push(s);
@@ -384,7 +404,12 @@ impl World {
             .block_on()
             .unwrap_or_else(|e| machinery_failure(&format!("cannot read operation parents: {e}")));
         let pidx: Vec<usize> = parents.iter().map(|p| self.op_index(p)).collect();
-        self.ops.push(OpRec { op: op.clone(), parents: pidx, created: vec![], step: self.step });
+        self.ops.push(OpRec {
+            op: op.clone(),
+            parents: pidx,
+            created: vec![],
+            step: self.step,
+        });
         if self.ops.len() > 60 {
             machinery_failure("operation table overflow");
         }
@@ -631,7 +656,8 @@ fn apply_act(w: &mut World, mr: &mut MutableRepo, act: &Act, sh: &Shared) -> Res
 fn absorb_op(w: &mut World, op_idx: usize, in_merge: bool, sh: &Shared, history: &[Step]) -> bool {
     let op = w.ops[op_idx].op.clone();
     let Some(map) = op.store_operation().commit_predecessors.clone() else {
-        violation(sh, 
+        violation(
+            sh,
             "C46/record/operation-without-predecessors",
             format!("operation #{op_idx} stores no commit_predecessors at all"),
             json!({"history": history}),
@@ -655,11 +681,15 @@ fn absorb_op(w: &mut World, op_idx: usize, in_merge: bool, sh: &Shared, history:
             }
         }
         if ready.is_empty() {
-            violation(sh, 
+            violation(
+                sh,
                 "C46/record/jj-commit-predecessors-unknown",
                 format!(
                     "operation #{op_idx} records commits made by jj whose predecessors / parents are unknown commits: {:?}",
-                    unknown.iter().map(|(k, v)| (k.hex(), v.iter().map(|p| p.hex()).collect::<Vec<_>>())).collect::<Vec<_>>()
+                    unknown
+                        .iter()
+                        .map(|(k, v)| (k.hex(), v.iter().map(|p| p.hex()).collect::<Vec<_>>()))
+                        .collect::<Vec<_>>()
                 ),
                 json!({"history": history}),
             );
@@ -671,12 +701,13 @@ fn absorb_op(w: &mut World, op_idx: usize, in_merge: bool, sh: &Shared, history:
         let c = store.get_commit(&id).unwrap();
         let same_change = ps.iter().all(|&p| w.table[p].change_id() == c.change_id());
         if ps.is_empty() || !same_change {
-            violation(sh, 
+            violation(
+                sh,
                 "C46/record/jj-commit-predecessors",
                 format!(
-                    "operation #{op_idx} records a commit made by jj (change of slot-like {:?}) with predecessors {ps:?}: \
-                     a rebased commit must have its source (same change) as predecessor",
-                    c.change_id()
+                    "operation #{op_idx} records a commit made by jj (change {}) with predecessor slots {ps:?}: \
+                     a rebased commit must have its source (a commit of the same change) as predecessor",
+                    c.change_id().hex()
                 ),
                 json!({"history": history}),
             );
@@ -717,7 +748,12 @@ fn run_tx(
             Ok(Ok(())) => {}
             Ok(Err(e)) => {
                 if e.starts_with("cycle:") {
-                    violation(sh, "C46/cycle/recreated-existing-commit", e, json!({"history": history}));
+                    violation(
+                        sh,
+                        "C46/cycle/recreated-existing-commit",
+                        e,
+                        json!({"history": history}),
+                    );
                     return Err(Stop::Violation);
                 }
                 if e.contains("already exists") {
@@ -793,15 +829,18 @@ fn reload(w: &mut World, sh: &Shared, history: &[Step]) -> Result<(), Stop> {
     let t = w.tick();
     w.settings = settings_at(Some(&w.settings), t, w.pic);
     let r = catch(|| {
-        open_loader(w, &w.settings).load_at_head().block_on().map_err(|e| {
-            let mut s = format!("{e}");
-            let mut src = std::error::Error::source(&e);
-            while let Some(x) = src {
-                s.push_str(&format!(": {x}"));
-                src = x.source();
-            }
-            s
-        })
+        open_loader(w, &w.settings)
+            .load_at_head()
+            .block_on()
+            .map_err(|e| {
+                let mut s = format!("{e}");
+                let mut src = std::error::Error::source(&e);
+                while let Some(x) = src {
+                    s.push_str(&format!(": {x}"));
+                    src = x.source();
+                }
+                s
+            })
     });
     let repo = match r {
         Ok(Ok(repo)) => repo,
@@ -840,19 +879,22 @@ fn reload(w: &mut World, sh: &Shared, history: &[Step]) -> Result<(), Stop> {
                 .get_commit(&id)
                 .unwrap_or_else(|e| machinery_failure(&format!("cannot read commit: {e}")));
             stack.extend(c.parent_ids().iter().cloned());
-            let sources: Vec<usize> =
-                (1..w.table.len()).filter(|&s| w.table[s].change_id() == c.change_id()).collect();
+            let sources: Vec<usize> = (1..w.table.len())
+                .filter(|&s| w.table[s].change_id() == c.change_id())
+                .collect();
             if sources.is_empty() {
                 machinery_failure("the merged view contains a commit of unknown origin");
             }
-            let listed: Vec<Option<usize>> = match do_walk(&repo, slice::from_ref(&id), 2 * w.table.len() + 2) {
+            let listed: Vec<Option<usize>> = match do_walk(&repo, slice::from_ref(&id), 2 * w.table.len() + 2)
+            {
                 Ok((items, _)) => items.iter().map(|it| w.slot_of(&it.id)).collect(),
                 Err(_) => vec![],
             };
             if listed.iter().flatten().any(|s| sources.contains(s)) {
                 machinery_failure("a commit no operation records still has a recorded evolution");
             }
-            violation(sh, 
+            violation(
+                sh,
                 "C46/walk/missing-source-of-merge-rebased-commit",
                 format!(
                     "merging the concurrent operations made a new commit of the change of slots {sources:?} (a rebased \
@@ -947,7 +989,8 @@ fn check_walk(w: &World, starts: &[usize], kind: &str, sh: &Shared, history: &[S
     let cap = 2 * w.table.len() + 2;
     let mut ok = true;
     let mut report = |clause: &str, msg: String| {
-        violation(sh, 
+        violation(
+            sh,
             &format!("C46/{kind}/{clause}"),
             format!("walk_predecessors from slots {starts:?}: {msg}"),
             json!({"history": history, "start_slots": starts}),
@@ -973,13 +1016,24 @@ fn check_walk(w: &World, starts: &[usize], kind: &str, sh: &Shared, history: &[S
     }
     let anc = w.op_anc();
     let clo_ops: BTreeSet<usize> = clo.iter().filter_map(|&s| w.ghost[s].op).collect();
-    if clo_ops.iter().any(|&a| clo_ops.iter().any(|&b| a != b && anc[a] >> b & 1 == 0 && anc[b] >> a & 1 == 0)) {
+    if clo_ops.iter().any(|&a| {
+        clo_ops
+            .iter()
+            .any(|&b| a != b && anc[a] >> b & 1 == 0 && anc[b] >> a & 1 == 0)
+    }) {
         sh.c.walks_across_concurrent_ops.inc();
     }
-    if clo.iter().any(|&s| w.ghost[s].op.is_some() && w.ghost[s].preds.iter().any(|&p| w.ghost[p].op == w.ghost[s].op)) {
+    if clo
+        .iter()
+        .any(|&s| w.ghost[s].op.is_some() && w.ghost[s].preds.iter().any(|&p| w.ghost[p].op == w.ghost[s].op))
+    {
         sh.c.walks_chain_within_op.inc();
     }
-    let untracked: Vec<usize> = clo.iter().copied().filter(|&s| s != 0 && w.ghost[s].op.is_none()).collect();
+    let untracked: Vec<usize> = clo
+        .iter()
+        .copied()
+        .filter(|&s| s != 0 && w.ghost[s].op.is_none())
+        .collect();
     if !untracked.is_empty() {
         sh.c.walks_closure_with_untracked.inc();
         if untracked.iter().any(|s| counts[s] >= 2) {
@@ -999,12 +1053,18 @@ fn check_walk(w: &World, starts: &[usize], kind: &str, sh: &Shared, history: &[S
         WalkEnd::Truncated => {
             report(
                 "unbounded",
-                format!("more than {cap} entries for a repository with {} commits", w.table.len()),
+                format!(
+                    "more than {cap} entries for a repository with {} commits",
+                    w.table.len()
+                ),
             );
             return false;
         }
         WalkEnd::Cycle(id) => {
-            report("cycle-error", format!("CycleDetected around {id} although the history has no cycle"));
+            report(
+                "cycle-error",
+                format!("CycleDetected around {id} although the history has no cycle"),
+            );
             return false;
         }
         WalkEnd::Error(e) => {
@@ -1017,7 +1077,10 @@ fn check_walk(w: &World, starts: &[usize], kind: &str, sh: &Shared, history: &[S
         match w.slot_of(&it.id) {
             Some(s) => got.push(s),
             None => {
-                report("extra-unknown", format!("lists commit {} which the history never created", it.id.hex()));
+                report(
+                    "extra-unknown",
+                    format!("lists commit {} which the history never created", it.id.hex()),
+                );
                 return false;
             }
         }
@@ -1026,19 +1089,36 @@ fn check_walk(w: &World, starts: &[usize], kind: &str, sh: &Shared, history: &[S
     let mut seen: BTreeSet<usize> = BTreeSet::new();
     for (i, &s) in got.iter().enumerate() {
         if !seen.insert(s) {
-            let shape = if w.ghost[s].op.is_none() { "untracked" } else { "tracked" };
+            let shape = if w.ghost[s].op.is_none() {
+                "untracked"
+            } else {
+                "tracked"
+            };
             report(
                 &format!("duplicate-{shape}"),
-                format!("slot {s} is listed more than once (entries {got:?}; entry {i} has operation {:?})", items[i].op.as_ref().map(|o| o.hex())),
+                format!(
+                    "slot {s} is listed more than once (entries {got:?}; entry {i} has operation {:?})",
+                    items[i].op.as_ref().map(|o| o.hex())
+                ),
             );
         }
         if !clo.contains(&s) {
-            report("extra", format!("slot {s} is listed but is not a (transitive) predecessor (entries {got:?}, expected {clo:?})"));
+            report(
+                "extra",
+                format!(
+                    "slot {s} is listed but is not a (transitive) predecessor (entries {got:?}, expected {clo:?})"
+                ),
+            );
         }
     }
     for &s in &clo {
         if !seen.contains(&s) {
-            report("missing", format!("slot {s} is a (transitive) predecessor but is not listed (entries {got:?}, expected {clo:?})"));
+            report(
+                "missing",
+                format!(
+                    "slot {s} is a (transitive) predecessor but is not listed (entries {got:?}, expected {clo:?})"
+                ),
+            );
         }
     }
     // each after all of its own rewrites
@@ -1047,14 +1127,21 @@ fn check_walk(w: &World, starts: &[usize], kind: &str, sh: &Shared, history: &[S
             if let Some(j) = got.iter().position(|&x| x == b)
                 && j < i
             {
-                report("order", format!("slot {b} (a predecessor of slot {a}) is listed before it (entries {got:?})"));
+                report(
+                    "order",
+                    format!("slot {b} (a predecessor of slot {a}) is listed before it (entries {got:?})"),
+                );
             }
         }
     }
     // per entry: recorded predecessors and operation
     for (it, &s) in items.iter().zip(&got) {
         sh.c.entries_checked.inc();
-        let mut want: Vec<CommitId> = w.ghost[s].preds.iter().map(|&p| w.table[p].id().clone()).collect();
+        let mut want: Vec<CommitId> = w.ghost[s]
+            .preds
+            .iter()
+            .map(|&p| w.table[p].id().clone())
+            .collect();
         let mut have = it.preds.clone();
         want.sort();
         have.sort();
@@ -1065,7 +1152,10 @@ fn check_walk(w: &World, starts: &[usize], kind: &str, sh: &Shared, history: &[S
             let have_slots: Vec<Option<usize>> = it.preds.iter().map(|p| w.slot_of(p)).collect();
             report(
                 "entry-predecessors",
-                format!("entry of slot {s} has predecessor slots {have_slots:?}, the history made it from {:?}", w.ghost[s].preds),
+                format!(
+                    "entry of slot {s} has predecessor slots {have_slots:?}, the history made it from {:?}",
+                    w.ghost[s].preds
+                ),
             );
         }
         let want_op = w.ghost[s].op.map(|o| w.ops[o].op.id().clone());
@@ -1132,7 +1222,11 @@ fn check_accumulate(w: &World, old: usize, new: usize, anc: &[u64], sh: &Shared,
         sh.c.acc_transitive.inc();
     }
     let range_ops: Vec<usize> = (0..w.ops.len()).filter(|&o| range >> o & 1 == 1).collect();
-    if range_ops.iter().any(|&a| range_ops.iter().any(|&b| a != b && anc[a] >> b & 1 == 0 && anc[b] >> a & 1 == 0)) {
+    if range_ops.iter().any(|&a| {
+        range_ops
+            .iter()
+            .any(|&b| a != b && anc[a] >> b & 1 == 0 && anc[b] >> a & 1 == 0)
+    }) {
         sh.c.acc_nonlinear_range.inc();
     }
     let case = json!({"history": history, "accumulate": {"old_op": old, "new_op": new}});
@@ -1141,7 +1235,8 @@ fn check_accumulate(w: &World, old: usize, new: usize, anc: &[u64], sh: &Shared,
     });
     let got = match r {
         Err(p) => {
-            violation(sh, 
+            violation(
+                sh,
                 "C46/accumulate/panic",
                 format!("accumulate_predecessors(op #{new}, op #{old}) panicked: {p}"),
                 case,
@@ -1149,8 +1244,13 @@ fn check_accumulate(w: &World, old: usize, new: usize, anc: &[u64], sh: &Shared,
             return false;
         }
         Ok(Err(e)) => {
-            let clause = if matches!(e, WalkPredecessorsError::CycleDetected(_)) { "cycle-error" } else { "error" };
-            violation(sh, 
+            let clause = if matches!(e, WalkPredecessorsError::CycleDetected(_)) {
+                "cycle-error"
+            } else {
+                "error"
+            };
+            violation(
+                sh,
                 &format!("C46/accumulate/{clause}"),
                 format!("accumulate_predecessors(op #{new}, op #{old}) failed: {e}"),
                 case,
@@ -1167,8 +1267,12 @@ fn check_accumulate(w: &World, old: usize, new: usize, anc: &[u64], sh: &Shared,
             (k.clone(), v)
         })
         .collect();
-    if got.values().any(|v| v.iter().collect::<HashSet<_>>().len() != v.len()) {
-        violation(sh, 
+    if got
+        .values()
+        .any(|v| v.iter().collect::<HashSet<_>>().len() != v.len())
+    {
+        violation(
+            sh,
             "C46/accumulate/duplicate-predecessor",
             format!("accumulate_predecessors(op #{new}, op #{old}) lists a predecessor twice"),
             case.clone(),
@@ -1177,13 +1281,20 @@ fn check_accumulate(w: &World, old: usize, new: usize, anc: &[u64], sh: &Shared,
     }
     if got_sorted != want {
         let show = |m: &BTreeMap<CommitId, Vec<CommitId>>| -> Vec<(Option<usize>, Vec<Option<usize>>)> {
-            let mut v: Vec<_> =
-                m.iter().map(|(k, v)| (w.slot_of(k), v.iter().map(|p| w.slot_of(p)).collect::<Vec<_>>())).collect();
+            let mut v: Vec<_> = m
+                .iter()
+                .map(|(k, v)| (w.slot_of(k), v.iter().map(|p| w.slot_of(p)).collect::<Vec<_>>()))
+                .collect();
             v.sort();
             v
         };
-        let clause = if anc[new] & !anc[old] == 1u64 << new { "single-forward" } else { "forward" };
-        violation(sh, 
+        let clause = if anc[new] & !anc[old] == 1u64 << new {
+            "single-forward"
+        } else {
+            "forward"
+        };
+        violation(
+            sh,
             &format!("C46/accumulate/{clause}"),
             format!(
                 "accumulate_predecessors(op #{new}, op #{old}) = {:?} (slots), the history composed over the range gives {:?}",
@@ -1312,7 +1423,11 @@ fn run_step(w: &mut World, step: &Step, sh: &Shared, history: &[Step]) -> Result
     reload(w, sh, history)?;
     let op = w.op_index(&w.repo.operation().clone());
     let visible = w.visible_mask(&w.repo);
-    w.heads.push(HeadRec { repo: w.repo.clone(), op, visible });
+    w.heads.push(HeadRec {
+        repo: w.repo.clone(),
+        op,
+        visible,
+    });
     Ok(())
 }
 
@@ -1350,12 +1465,17 @@ fn replay(history: &[Step], sh: &Shared, check_all: bool) -> Option<World> {
 
 fn canonical_key(w: &World) -> String {
     let visible = w.visible_mask(&w.repo);
-    let mut out = String::new();
+    // the setting decides which actions are enabled: worlds with different settings never merge
+    let mut out = String::from(if w.pic { "pic|" } else { "nopic|" });
     for s in 0..w.table.len() {
         out.push_str(&format!(
             "{}{}c{}p{:?}e{:?}o{:?}{};",
             if visible >> s & 1 == 1 { 'V' } else { 'H' },
-            if w.repo.view().heads().contains(w.table[s].id()) { "h" } else { "" },
+            if w.repo.view().heads().contains(w.table[s].id()) {
+                "h"
+            } else {
+                ""
+            },
             w.change_rep(s),
             w.parents[s],
             w.ghost[s].preds,
@@ -1540,7 +1660,11 @@ fn enabled_steps(w: &World, plan: &StepPlan) -> Vec<Step> {
         return cycle_steps(w, visible, &restore);
     }
     let mut steps = vec![];
-    let single_restore: &[usize] = if plan.singles >= Size::Small { &restore } else { &[] };
+    let single_restore: &[usize] = if plan.singles >= Size::Small {
+        &restore
+    } else {
+        &[]
+    };
     for a in singles(w, visible, plan.singles, single_restore, true) {
         steps.push(Step::Tx(vec![a]));
     }
@@ -1571,18 +1695,29 @@ fn main() {
     let ctx = Ctx::from_args("C46", Level::ModelChecking);
     vcommon::silence_panics();
     let counters = Counters::default();
-    let sh = Shared { ctx: &ctx, c: &counters };
+    let sh = Shared {
+        ctx: &ctx,
+        c: &counters,
+    };
 
     if let Some((_sig, case)) = ctx.replay_case() {
         let history: Vec<Step> = serde_json::from_value(case["history"].clone())
             .unwrap_or_else(|e| machinery_failure(&format!("bad replay case: {e}")));
         let _ = replay(&history, &sh, true);
-        ctx.finish(Coverage { evaluations: 1, ..Default::default() });
+        ctx.finish(Coverage {
+            evaluations: 1,
+            ..Default::default()
+        });
     }
 
     let quick = ctx.quick();
     // plan[k] = alphabet of the (k+1)-th step after the build
-    let sp = |singles, pairs, forks, at_initial| StepPlan { singles, pairs, forks, at_initial };
+    let sp = |singles, pairs, forks, at_initial| StepPlan {
+        singles,
+        pairs,
+        forks,
+        at_initial,
+    };
     let plan: Vec<StepPlan> = if quick {
         vec![
             sp(Size::Full, Size::Small, Size::Full, Size::None),
@@ -1649,8 +1784,16 @@ fn main() {
             Step::TxAtInitial(vec![Act::Describe(2)]),
         ];
         let scratch = Counters::default();
-        let sh2 = Shared { ctx: &ctx, c: &scratch };
-        let obs = |w: &World| (canonical_key(w), w.table.iter().map(|c| c.id().hex()).collect::<Vec<_>>());
+        let sh2 = Shared {
+            ctx: &ctx,
+            c: &scratch,
+        };
+        let obs = |w: &World| {
+            (
+                canonical_key(w),
+                w.table.iter().map(|c| c.id().hex()).collect::<Vec<_>>(),
+            )
+        };
         let k1 = replay(&probe, &sh2, true).map(|w| obs(&w));
         let k2 = replay(&probe, &sh2, true).map(|w| obs(&w));
         if (k1.is_none() || k1 != k2) && ctx.violation_count() == 0 {
@@ -1658,8 +1801,9 @@ fn main() {
         }
     }
 
-    let dump: Option<Mutex<std::fs::File>> =
-        std::env::var("C46_DUMP").ok().map(|p| Mutex::new(std::fs::File::create(p).unwrap()));
+    let dump: Option<Mutex<std::fs::File>> = std::env::var("C46_DUMP")
+        .ok()
+        .map(|p| Mutex::new(std::fs::File::create(p).unwrap()));
     let seen_states: Mutex<HashSet<String>> = Mutex::new(HashSet::new());
     let samples = vcommon::Samples::new(6);
     let cfg = BfsConfig {
@@ -1695,7 +1839,9 @@ fn main() {
             let interesting = (1..w.table.len()).any(|s| {
                 let clo = closure(&w, &[s]);
                 path_counts(&w, &[s], &clo).values().any(|&n| n >= 2)
-            }) && history.iter().any(|h| matches!(h, Step::Fork(..) | Step::TxAtInitial(..)));
+            }) && history
+                .iter()
+                .any(|h| matches!(h, Step::Fork(..) | Step::TxAtInitial(..)));
             if interesting {
                 samples.offer(|| {
                     json!({
@@ -1707,7 +1853,11 @@ fn main() {
             }
         }
         let k = history.len() - 1;
-        let actions = if k < plan.len() { enabled_steps(&w, &plan[k]) } else { vec![] };
+        let actions = if k < plan.len() {
+            enabled_steps(&w, &plan[k])
+        } else {
+            vec![]
+        };
         Some(StepResult { key, actions })
     };
     let stats = search(&cfg, step_fn, step_label);
@@ -1729,7 +1879,11 @@ fn main() {
     for (label, (n, fresh)) in &stats.per_action {
         per_action.insert(label.clone(), json!([n, fresh]));
         let class = label.split(':').next().unwrap_or("").to_string();
-        let class = if class.starts_with("build") { "build".to_string() } else { class };
+        let class = if class.starts_with("build") {
+            "build".to_string()
+        } else {
+            class
+        };
         let e = classes.entry(class).or_insert((0, 0));
         e.0 += n;
         e.1 += fresh;
@@ -1742,16 +1896,28 @@ fn main() {
     let c = &counters;
     if c.other_violations.get() == 0 {
         for needed in [
-            "act:describe", "act:describe-twice", "act:rebase", "act:squash", "act:split", "act:abandon",
-            "act:new", "act:restore", "act:recreate", "act:twice-and-back", "tx", "at-initial", "fork", "build",
+            "act:describe",
+            "act:describe-twice",
+            "act:rebase",
+            "act:squash",
+            "act:split",
+            "act:abandon",
+            "act:new",
+            "act:restore",
+            "act:recreate",
+            "act:twice-and-back",
+            "tx",
+            "at-initial",
+            "fork",
+            "build",
         ] {
             match classes.get(needed) {
                 None => machinery_failure(&format!("vacuous: action class {needed} never ran")),
                 // a refused twice-and-back leaves exactly the state of describe-twice, which is
                 // enumerated before it: for that class only "ran" is required
-                Some((_, 0)) if needed != "act:twice-and-back" => {
-                    machinery_failure(&format!("vacuous: action class {needed} never reached a new state"))
-                }
+                Some((_, 0)) if needed != "act:twice-and-back" => machinery_failure(&format!(
+                    "vacuous: action class {needed} never reached a new state"
+                )),
                 _ => {}
             }
         }
@@ -1763,7 +1929,10 @@ fn main() {
             ("walks_across_concurrent_ops", c.walks_across_concurrent_ops.get()),
             ("walks_from_hidden", c.walks_from_hidden.get()),
             ("walks_chain_within_op", c.walks_chain_within_op.get()),
-            ("walks_closure_with_untracked", c.walks_closure_with_untracked.get()),
+            (
+                "walks_closure_with_untracked",
+                c.walks_closure_with_untracked.get(),
+            ),
             ("entries_without_operation", c.entries_without_operation.get()),
             ("entries_multi_pred", c.entries_multi_pred.get()),
             ("jj_rebased_in_tx", c.jj_rebased_in_tx.get()),
@@ -1786,7 +1955,12 @@ fn main() {
     extra.insert("per_step_label".into(), Value::Object(per_action));
     extra.insert(
         "per_class".into(),
-        json!(classes.iter().map(|(k, v)| (k.clone(), json!([v.0, v.1]))).collect::<BTreeMap<_, _>>()),
+        json!(
+            classes
+                .iter()
+                .map(|(k, v)| (k.clone(), json!([v.0, v.1])))
+                .collect::<BTreeMap<_, _>>()
+        ),
     );
     extra.insert("per_depth_states".into(), json!(stats.per_depth_states));
     extra.insert("max_depth_completed".into(), json!(stats.max_depth_completed));
@@ -1833,7 +2007,10 @@ fn main() {
     if stats.capped {
         extra.insert(
             "capped".into(),
-            json!(format!("wall-clock cap hit; largest completed depth {}", stats.max_depth_completed)),
+            json!(format!(
+                "wall-clock cap hit; largest completed depth {}",
+                stats.max_depth_completed
+            )),
         );
     }
     let mut samples: Vec<Value> = samples.take();
